@@ -276,4 +276,166 @@ theorem comm_demonitorScopeFwd (st : State) (k : Key) (x s b : Nat) :
     SEq (demonitorScopeFwdSt (leaveRelOne st k x) s b) (leaveRelOne (demonitorScopeFwdSt st s b) k x) :=
   ⟨rfl, rfl, rfl, rfl, rfl, fun _ => rfl⟩
 
+theorem rcomm_relUpdate (k : Key) (x b : Nat) (f : Rel → Rel)
+    (hf : ∀ r, (f { r with mem := del k r.mem }) = { f r with mem := del k (f r).mem }) :
+    RComm k x (fun r => relUpdate r b f) :=
+  rcomm_alter k x b _ (fun _ o => leaveH_update_comm k f hf o)
+
+/-- the entry + relations-lock region of `monitor` -/
+theorem comm_monitorEntry (st : State) (k : Key) (x g b : Nat) :
+    SEq (monitorEntry (leaveRelOne st k x) g b) (leaveRelOne (monitorEntry st g b) k x) := by
+  unfold monitorEntry
+  have ha : alive (leaveRelOne st k x) b = alive st b := rfl
+  rw [ha]
+  by_cases h : alive st b = true
+  · rw [if_pos h, if_pos h]
+    unfold Pg.monitor
+    rw [ha, if_pos h, if_pos h]
+    exact seq_of_rcomm (rcomm_comp (rcomm_relUpdate k x b id (fun _ => rfl))
+      (rcomm_relUpdate k x b (fun r => { r with gmon := ins (defaultScope, g) r.gmon }) (fun _ => rfl))) st _ st.index st.world st.dead
+  · rw [if_neg h, if_neg h]; exact comm_touchGroup st k _ x
+
+theorem comm_monitorScopeEntry (st : State) (k : Key) (x s b : Nat) :
+    SEq (monitorScopeEntry (leaveRelOne st k x) s b) (leaveRelOne (monitorScopeEntry st s b) k x) := by
+  unfold monitorScopeEntry
+  have ha : alive (leaveRelOne st k x) b = alive st b := rfl
+  rw [ha]
+  by_cases h : alive st b = true
+  · rw [if_pos h, if_pos h]
+    unfold Pg.monitorScope
+    rw [ha, if_pos h, if_pos h]
+    exact seq_of_rcomm (rcomm_comp (rcomm_relUpdate k x b id (fun _ => rfl))
+      (rcomm_relUpdate k x b (fun r => { r with wmon := ins s r.wmon }) (fun _ => rfl))) st st.map st.index _ st.dead
+  · rw [if_neg h, if_neg h]; exact ⟨rfl, rfl, rfl, rfl, rfl, fun _ => rfl⟩
+
+/-! ### (ii) `remove_empty_actor_relations` -/
+
+theorem rcomm_removeEmptyRel (k : Key) (x a : Nat) (h : a ≠ x) : RComm k x (fun r => removeEmptyRel r a) :=
+  rcomm_alter k x a _ (fun e => absurd e h)
+
+/-- `remove_empty_actor_relations(x)` against the iteration for the same actor `x`: every lookup agrees, except
+that when `k` was the last thing in `x`'s reverse-index entry the order "iteration first" has removed the entry
+and the order "iteration last" leaves it behind EMPTY -/
+theorem removeEmptyRel_leaveRelOne (r : List (Nat × Rel)) (k : Key) (x b : Nat) :
+    get (removeEmptyRel (alter r x (leaveH k)) x) b = get (alter (removeEmptyRel r x) x (leaveH k)) b ∨
+    (b = x ∧ get (removeEmptyRel (alter r x (leaveH k)) x) x = none ∧
+      ∃ r', get (alter (removeEmptyRel r x) x (leaveH k)) x = some r' ∧ r'.isEmpty = true ∧
+        ∃ r0, get r x = some r0 ∧ r0.isEmpty = false) := by
+  unfold removeEmptyRel
+  simp only [get_alter]
+  by_cases hb : b = x
+  · subst hb
+    simp only [if_true]
+    cases hr : get r b with
+    | none => left; rfl
+    | some r0 =>
+      simp only [leaveH, Option.map_some, Option.bind_some]
+      by_cases h0 : r0.isEmpty = true
+      · left
+        have : ({ r0 with mem := del k r0.mem } : Rel).isEmpty = true := by
+          simp only [Rel.isEmpty, Bool.and_eq_true, List.isEmpty_iff] at h0 ⊢
+          refine ⟨⟨?_, h0.1.2⟩, h0.2⟩
+          rw [h0.1.1]; rfl
+        simp [h0, this]
+      · by_cases h1 : ({ r0 with mem := del k r0.mem } : Rel).isEmpty = true
+        · right
+          refine ⟨by first | rfl | trivial, by simp [h1], { r0 with mem := del k r0.mem }, by simp [h0], h1, r0, rfl, by simpa using h0⟩
+        · left; simp [h0, h1]
+  · left; simp [hb]
+
+/-- the iteration is invisible when `k` is not in `x`'s reverse index (then everything commutes with it) -/
+theorem leaveRelOne_noop (st : State) (k : Key) (x : Nat) (h : k ∉ relMem st x) : SEq (leaveRelOne st k x) st := by
+  refine ⟨rfl, rfl, rfl, rfl, rfl, fun a => ?_⟩
+  simp only [leaveRelOne, get_alter]
+  by_cases ha : a = x
+  · subst ha
+    simp only [if_true, leaveH]
+    cases hr : get st.rel a with
+    | none => rfl
+    | some r =>
+      have hk : k ∉ r.mem := by simpa [relMem, relOf, hr] using h
+      have : del k r.mem = r.mem := by
+        unfold del
+        refine List.filter_eq_self.mpr (fun y hy => ?_)
+        have hne : y ≠ k := fun e => hk (e ▸ hy)
+        simpa using hne
+      simp [this]
+  · simp [ha]
+
+/-- `finish` of the exit of another actor; for `x`'s own exit see `removeEmptyRel_leaveRelOne` -/
+theorem comm_finishLeave (st : State) (k : Key) (x a : Nat) (rm : List (Key × List Nat)) (h : a ≠ x) :
+    SEq (finishLeave (leaveRelOne st k x) a rm).1 (leaveRelOne (finishLeave st a rm).1 k x) ∧
+    (finishLeave (leaveRelOne st k x) a rm).2 = (finishLeave st a rm).2 :=
+  ⟨seq_of_rcomm (rcomm_removeEmptyRel k x a h) st st.map st.index st.world st.dead, rfl⟩
+
+/-- the re-check region of a `monitor` naming another actor (or an actor that is not stopping) -/
+theorem comm_monitorRecheck (st : State) (k : Key) (x g b : Nat) (h : b ≠ x ∨ alive st b = true) :
+    SEq (Pg.monitorRecheck (leaveRelOne st k x) g b) (leaveRelOne (Pg.monitorRecheck st g b) k x) := by
+  unfold Pg.monitorRecheck
+  have ha : alive (leaveRelOne st k x) b = alive st b := rfl
+  rw [ha]
+  by_cases hl : alive st b = true
+  · rw [if_pos hl, if_pos hl]; exact ⟨rfl, rfl, rfl, rfl, rfl, fun _ => rfl⟩
+  · rw [if_neg hl, if_neg hl]
+    exact seq_of_rcomm (rcomm_removeEmptyRel k x b (h.resolve_right hl)) st _ st.index st.world st.dead
+
+theorem comm_monitorScopeRecheck (st : State) (k : Key) (x s b : Nat) (h : b ≠ x ∨ alive st b = true) :
+    SEq (Pg.monitorScopeRecheck (leaveRelOne st k x) s b) (leaveRelOne (Pg.monitorScopeRecheck st s b) k x) := by
+  unfold Pg.monitorScopeRecheck
+  have ha : alive (leaveRelOne st k x) b = alive st b := rfl
+  rw [ha]
+  by_cases hl : alive st b = true
+  · rw [if_pos hl, if_pos hl]; exact ⟨rfl, rfl, rfl, rfl, rfl, fun _ => rfl⟩
+  · rw [if_neg hl, if_neg hl]
+    exact seq_of_rcomm (rcomm_removeEmptyRel k x b (h.resolve_right hl)) st st.map st.index _ st.dead
+
+theorem rcomm_foldl_mem {k : Key} {x : Nat} {α : Type} (F : List (Nat × Rel) → α → List (Nat × Rel)) (ys : List α)
+    (hF : ∀ y ∈ ys, RComm k x (fun r => F r y)) : RComm k x (fun r => ys.foldl F r) := by
+  induction ys with
+  | nil => exact rcomm_id k x
+  | cons y ys ih =>
+    exact rcomm_comp (hF y (List.mem_cons_self ..)) (ih (fun z hz => hF z (List.mem_cons_of_mem _ hz)))
+
+/-- the clean-up region of a `join_scoped` that does not name a stopping `x` -/
+theorem comm_joinCleanup (st : State) (k : Key) (x s g : Nat) (as : List Nat) (h : x ∉ as ∨ alive st x = true) :
+    SEq (joinCleanup (leaveRelOne st k x) s g as) (leaveRelOne (joinCleanup st s g as) k x) := by
+  unfold joinCleanup
+  have ha : (as.filter fun a => !alive (leaveRelOne st k x) a) = as.filter fun a => !alive st a := rfl
+  rw [ha]
+  refine seq_of_rcomm (Φ := fun r => (as.filter fun a => !alive st a).foldl removeEmptyRel r)
+    (rcomm_foldl_mem _ _ (fun y hy => rcomm_removeEmptyRel k x y ?_)) st _ st.index st.world st.dead
+  rw [List.mem_filter] at hy
+  rintro rfl
+  rcases h with h | h
+  · exact h hy.1
+  · rw [h] at hy; simp at hy
+
+/-! ### what the other threads read is not changed by an iteration -/
+
+/-- every value a region of `Pg.Conc` reads to DECIDE something (status, membership, recipients, the existence
+of a reverse-index entry, the monitor sets an exit drains) is the same before and after an iteration; only
+`x`'s membership set — read by `take` of `x`'s own exit, case (i) — has lost `k` -/
+theorem leaveRelOne_reads (st : State) (k : Key) (x : Nat) :
+    (∀ a, alive (leaveRelOne st k x) a = alive st a) ∧
+    (∀ k', membersOf (leaveRelOne st k x) k' = membersOf st k') ∧
+    (∀ k', recipients (leaveRelOne st k x) k' = recipients st k') ∧
+    (∀ a, (get (leaveRelOne st k x).rel a).isSome = (get st.rel a).isSome) ∧
+    (∀ a, relGmonOf (leaveRelOne st k x) a = relGmonOf st a) ∧
+    (∀ a, relWmonOf (leaveRelOne st k x) a = relWmonOf st a) ∧
+    (∀ a, a ≠ x → relMemOf (leaveRelOne st k x) a = relMemOf st a) ∧
+    relMemOf (leaveRelOne st k x) x = del k (relMemOf st x) := by
+  refine ⟨fun _ => rfl, fun _ => rfl, fun _ => rfl, fun a => ?_, fun a => ?_, fun a => ?_, fun a ha => ?_, ?_⟩
+  all_goals simp only [relGmonOf, relWmonOf, relMemOf, leaveRelOne, get_alter, leaveH]
+  · by_cases h : a = x
+    · subst h; cases get st.rel a <;> simp
+    · simp [h]
+  · by_cases h : a = x
+    · subst h; cases get st.rel a <;> simp
+    · simp [h]
+  · by_cases h : a = x
+    · subst h; cases get st.rel a <;> simp
+    · simp [h]
+  · simp [ha]
+  · cases get st.rel x <;> simp [del]
+
 end Pg.Conc
